@@ -415,6 +415,7 @@ def check_forest(impl):
     D.walk(root, visit)
   return hits
 
+NONFIX_SIGNATURE = 'C03/member-not-fixpoint/apply/Union-result-dispatches-to-another-candidate'
 BATCH_OPS = {D.LEXTEND, D.LIADD, D.LIMUL, D.DUPDATE, D.DIOR, D.REBIND, LSETSLICE}
 
 def content_of(snap):
@@ -508,7 +509,7 @@ class Oracle:
     if self.by_reference:
       return 'C03/symbolic-value/%s/%s' % ('required-missing' if clause == 'required-missing' else 'other-clause', 'rejected' if res[0] == 1 else 'accepted')
     if disc == 'Union-dispatch':
-      return 'C03/member-not-fixpoint/apply/Union-result-dispatches-to-another-candidate'
+      return NONFIX_SIGNATURE
     if disc.endswith('.frozen') and clause in ('member-rejected', 'frozen-differs', 'member-not-fixpoint'):
       return 'C03/frozen-differs/deep-write/container-held-by-frozen-field'
     return 'C03/%s/%s/%s' % (clause, name, disc)
@@ -1201,11 +1202,12 @@ def run(ctx):
   ctx.build()
   t0 = time.time()
   rng = ctx.rng
-  quirks = D.quirk_flags()
-  ctx.extra['quirk_flags'] = dict(copy_drops_missing=quirks[0])
-  # --- open findings: replayed first (the model needs no flag for them: each lies outside its vocabulary or outside the theorems' hypotheses)
+  base_quirks = D.quirk_flags()
+  # --- open findings: replayed first.  One of them has a flag in the model (a value that its own spec does not map to itself is
+  # stored all the same); the others lie outside the vocabulary of the model or outside the hypotheses of the theorems.
+  nonfix = 0
   for name, case in open_witnesses().items():
-    case[0] = list(quirks)
+    case[0] = list(base_quirks) + [1]
     orc = Oracle()
     try:
       run_case(case, after_step=orc, after_init=orc.after_init, guard=False)
@@ -1214,6 +1216,9 @@ def run(ctx):
     ctx.extra.setdefault('open_witnesses', {})[name] = [h[0] for h in orc.hits] or 'holds now'
     for sig, what, step in orc.hits:
       ctx.hit(sig, what, dict(case=trlib.to_line(case), step=step, guard=False, snippet=py_snippet(case, False)))
+      if sig == NONFIX_SIGNATURE: nonfix = 1
+  quirks = list(base_quirks) + [nonfix]
+  ctx.extra['quirk_flags'] = dict(copy_drops_missing=quirks[0], stores_non_fixpoint=nonfix)
   # --- cases for the correspondence (model vocabulary; the guard answers 'not applicable' on both sides for the rest)
   cases, kinds, impl_outs = [], [], []
   for name, (c, guard) in corpus().items():
